@@ -87,3 +87,16 @@ Theorem C01_explicit_step_balance : forall (F : FieldOps) (L : FieldLaws F) (m :
   = ksub F (sum_cells F m (fun c => kmul F (V c) (old c))) (kmul F dt (boundary_flux F m T Fl)).
 Proof. exact explicit_step_balance. Qed.
 Print Assumptions C01_explicit_step_balance.
+
+(* known finding: across a periodic boundary the upwind flux through the two copies of the periodic face differs
+   (face-average treatment of inflow boundary faces), so the boundary fluxes do not cancel: witness at Qc,
+   Grid1D with 3 unit cells, u = 1, phi = (1,2,4) with wrap-copied ghost cells *)
+Definition ex_G1 : Mesh QcOps :=
+  Exec.mk_mesh G1 (CorrLib.qc 0 1 :: CorrLib.qc 1 1 :: CorrLib.qc 2 1 :: CorrLib.qc 3 1 :: nil) nil nil (CorrLib.qc 355 113) nil nil.
+Definition ex_phi_wrap : cvar QcOps :=
+  fun c => match fst (fst c) with 0%nat => CorrLib.qc 4 1 | 1%nat => CorrLib.qc 1 1 | 2%nat => CorrLib.qc 2 1 | 3%nat => CorrLib.qc 4 1 | _ => CorrLib.qc 1 1 end.
+Theorem C01_upwind_periodic_refuted :
+  boundary_flux QcOps ex_G1 (mT QcOps ex_G1) (upwflux QcOps ex_G1 (fun _ _ => CorrLib.qc 1 1) (fun _ _ => CorrLib.qc 1 1) ex_phi_wrap)
+  <> k0 QcOps.
+Proof. apply qc_neq. vm_compute. reflexivity. Qed.
+Print Assumptions C01_upwind_periodic_refuted.
